@@ -27,7 +27,7 @@ fn hline(y: i32, a: i32, b: i32) -> FragmentSpan {
     )
 }
 
-//@ harness: o9_6_span_fragments_fixpoint props=C09 tier=thorough obl=O9.6 timeout=3400 mem=24
+//@ harness: o9_6_span_fragments_fixpoint props=C09 tier=stretch obl=O9.6 timeout=3400 mem=24
 //@ desc: FragmentBuffer holding three symbolic horizontal lattice lines on one row (interval ends 0..12 quarter units, any order, overlapping / touching / separate) in one cell: merge_fragment_spans returns lines no two of which can still merge, and every lattice point covered before is covered after (the real Fragment/Line merge under the real merge loop, at its real call site); bounded Vec
 //@ encodes: FragmentBuffer::merge_fragment_spans, FragmentBuffer::abs_fragment_spans, FragmentSpan::merge, Fragment::merge, Line::merge, Merge::merge_recursive
 #[kani::proof]
@@ -85,7 +85,7 @@ fn o9_6_span_fragments_fixpoint() {
     std::mem::forget(fb);
 }
 
-//@ harness: o9_6_bridge_fixpoint props=C09 tier=thorough obl=O9.6 timeout=3400 mem=20
+//@ harness: o9_6_bridge_fixpoint props=C09 tier=stretch obl=O9.6 timeout=3400 mem=20
 //@ desc: FragmentBuffer holding, in this order, the fixed horizontal lines [0,2] and [4,6] and a third line [lo,hi] (symbolic, 0 <= lo < hi <= 8 quarter units, same row) that may bridge them: merge_fragment_spans returns lines no two of which can still merge (a single greedy sweep would leave [0,2] next to the merged rest); the minimal situation in which the repeat-until-stable loop at this call site matters; bounded Vec; the Line+Circle and CellText+CellText arms of Fragment::merge, which cannot occur with lines, are stubbed by None
 //@ encodes: FragmentBuffer::merge_fragment_spans, FragmentBuffer::abs_fragment_spans, FragmentSpan::merge, Fragment::merge, Line::merge, Merge::merge_recursive
 #[kani::proof]
